@@ -599,7 +599,10 @@ Hypothesis final_nl : forall a ta, sigt a = Some ta -> sigt (a ++ [10]) = Some t
 Hypothesis sigt_nil : sigt [] = Some [].
 (* the echo of a lexed text of the dialect has the text's significant tokens (quoted strings may be
    spelled differently, with the same denotation: this is what C06 states) *)
-Hypothesis echo_tokens : forall ls q t, parse_lines ls = Ok q -> sigt (concat ls) = Some t -> sigt (concat (echo q)) = Some t.
+(* ... for the line lists [good] singles out (e.g. lines that end in a line feed, made of bytes) *)
+Variable good : list bytes -> Prop.
+Hypothesis echo_tokens : forall ls q t, good ls -> parse_lines ls = Ok q -> sigt (concat ls) = Some t ->
+  sigt (concat (echo q)) = Some t.
 Hypothesis file_lines_concat : forall c, concat (file_lines c) = c.
 
 Definition toks (x : bytes) : list T := match sigt x with Some t => t | None => [] end.
@@ -703,6 +706,8 @@ Lemma build_code_tokens fuel mp mc out :
   exists r pk, build_lua fuel mp mc = Ok (r, pk) /\
     (Forall lexes preamble_package -> Forall lexes preamble_require -> lexes end_line ->
      Forall block_lexes pk -> lexes mc ->
+     good (file_lines mc) ->
+     (forall m, parse_lines (file_lines mc) = Ok m -> good (prepend_lines m pk)) ->
      sigt out = Some match pk with
                      | [] => toks mc
                      | _ => concat (map toks preamble_package) ++ concat (map block_toks pk)
@@ -713,16 +718,16 @@ Proof.
   destruct (build_lua fuel mp mc) as [[r pk]|e] eqn:Hb; [|discriminate]. cbn [bind] in H.
   unfold ReqEmbed.lua_section in H.
   destruct (parse_lines (echo r)) as [r2|e]; [|discriminate]. cbn [bind] in H. injection H as <-.
-  exists r, pk. split; [reflexivity|]. intros Hpp Hpr Hend Hpk Hmc.
-  destruct (build_structure _ _ _ _ _ Hb) as (m & Hm & He & Hs).
+  exists r, pk. split; [reflexivity|]. intros Hpp Hpr Hend Hpk Hmc Hg1 Hg2.
+  destruct (build_structure _ _ _ _ _ Hb) as (m & Hm & He & Hs). specialize (Hg2 m Hm). unfold ReqEmbed.prepend_lines in Hg2.
   assert (Em : sigt (concat (echo m)) = Some (toks mc)).
-  { apply (echo_tokens _ _ _ Hm). rewrite file_lines_concat. apply lexes_toks, Hmc. }
+  { apply (echo_tokens _ _ _ Hg1 Hm). rewrite file_lines_concat. apply lexes_toks, Hmc. }
   assert (Hmain : forall x tx, sigt x = Some tx ->
             sigt (x ++ (if ends_with_nl (last (echo r) []) then [] else [10])) = Some tx).
   { intros x tx Hx. destruct (ends_with_nl (last (echo r) [])); [rewrite app_nil_r; exact Hx | apply final_nl, Hx]. }
   apply Hmain. destruct pk as [|e0 pk0].
   - subst r. exact Em.
-  - apply (echo_tokens _ _ _ Hs). remember (e0 :: pk0) as pk eqn:Epk. clear Epk Hb Hs He.
+  - apply (echo_tokens _ _ _ Hg2 Hs). remember (e0 :: pk0) as pk eqn:Epk. clear Epk Hb Hs He Hg2.
     assert (Hz : lexes (concat (echo m))) by (unfold lexes; rewrite Em; discriminate).
     assert (Tz : toks (concat (echo m)) = toks mc) by (unfold toks at 1; rewrite Em; reflexivity).
     replace (concat (preamble_package ++ flat_map block pk ++ preamble_require ++ echo m))
@@ -746,20 +751,20 @@ Hypothesis strip_tokens : forall q q', strip q = Ok q' ->
 
 Lemma loaded_block_tokens e : loaded e ->
   exists rpath (gl : bool) qpath content, find rpath (fst e) = Some (qpath, content) /\
-    (lexes content ->
+    (lexes content -> good (file_lines content) ->
      lexes (concat (echo (snd e))) /\
      toks (concat (echo (snd e))) = if gl then toks content else sstrip (toks content)).
 Proof.
   intros (rpath & gl & qpath & Hl). exists rpath, gl.
   unfold ReqEmbed.load in Hl. destruct (find rpath (fst e)) as [[path content]|]; [|discriminate].
   destruct (parse_lines (file_lines content)) as [q0|e0] eqn:Hq; [|discriminate]. cbn [bind] in Hl.
-  assert (E0 : lexes content -> sigt (concat (echo q0)) = Some (toks content)).
-  { intros Hc. apply (echo_tokens _ _ _ Hq). rewrite file_lines_concat. apply lexes_toks, Hc. }
+  assert (E0 : lexes content -> good (file_lines content) -> sigt (concat (echo q0)) = Some (toks content)).
+  { intros Hc Hg. apply (echo_tokens _ _ _ Hg Hq). rewrite file_lines_concat. apply lexes_toks, Hc. }
   exists path, content. destruct gl.
-  - cbn [bind] in Hl. injection Hl as <- <-. split; [reflexivity|]. intros Hc. specialize (E0 Hc).
+  - cbn [bind] in Hl. injection Hl as <- <-. split; [reflexivity|]. intros Hc Hg. specialize (E0 Hc Hg).
     split; [unfold lexes; rewrite E0; discriminate | unfold toks at 1; rewrite E0; reflexivity].
   - destruct (strip q0) as [q1|e1] eqn:Hs; [|discriminate]. cbn [bind] in Hl. injection Hl as <- <-.
-    split; [reflexivity|]. intros Hc. specialize (E0 Hc). pose proof (strip_tokens _ _ Hs) as H. rewrite E0 in H.
+    split; [reflexivity|]. intros Hc Hg. specialize (E0 Hc Hg). pose proof (strip_tokens _ _ Hs) as H. rewrite E0 in H.
     cbn [option_map] in H.
     split; [unfold lexes; rewrite H; discriminate | unfold toks at 1; rewrite H; reflexivity].
 Qed.
@@ -767,7 +772,7 @@ Qed.
 Lemma build_block_tokens fuel mp mc r pk :
   build_lua fuel mp mc = Ok (r, pk) ->
   Forall (fun e => exists rpath (gl : bool) qpath content, find rpath (fst e) = Some (qpath, content) /\
-            (lexes content ->
+            (lexes content -> good (file_lines content) ->
              lexes (concat (echo (snd e))) /\
              toks (concat (echo (snd e))) = if gl then toks content else sstrip (toks content))) pk.
 Proof.
